@@ -348,3 +348,33 @@ if (SStr, "isspace") not in METHODS:
     METHODS[(SStr, "isspace")] = _isspace
 if (SBytes, "isspace") not in METHODS:
     METHODS[(SBytes, "isspace")] = _isspace
+
+
+# ---------------------------------------------------------------------------------------------------------------------
+# str.strip(chars) with a concrete non-empty chars: whatever model is installed stays in charge of the result; this adds the
+# exact emptiness fact      s.strip(chars) == ""   <=>   every character of s is in chars
+
+
+def charset_star(chars):
+    """regex term  [chars]*  (one canonical construction, so that contracts can state the same term)"""
+    cs = [chr(c) for c in chars] if isinstance(chars, (bytes, bytearray)) else list(chars)
+    return z3.Star(z3.Union(*[z3.Re(z3.StringVal(c)) for c in cs]) if len(cs) > 1 else z3.Re(z3.StringVal(cs[0])))
+
+
+def _wrap_strip(T):
+    prev = METHODS[(T, "strip")]
+
+    def strip_with_emptiness(it, s, *a):
+        r = prev(it, s, *a)
+        if len(a) == 1 and isinstance(a[0], (SStr, SBytes)) and s.concrete() is None and isinstance(r, (SStr, SBytes)):
+            chars = a[0].concrete()
+            if chars:
+                it.ex.assume((z3.Length(r.t) == 0) == z3.InRe(s.t, charset_star(chars)))
+                it.ex.note("assumed", "str.strip(chars) is empty iff the string consists of characters of chars only (exact)")
+        return r
+
+    METHODS[(T, "strip")] = strip_with_emptiness
+
+
+_wrap_strip(SStr)
+_wrap_strip(SBytes)
